@@ -368,6 +368,11 @@ def run(ctx):
         g = ffgen.gen_resgraph(rng, ff)
         if rng.random() < 0.5:
             g = ffgen.permute_graph(rng, g)
+        if rng.random() < 0.25:
+            # residue-graph nodes may carry any extra attributes (json input, gen_seq -label) -- also ones named like an atom
+            # attribute; they describe the residue, the atoms stay those of the block
+            g = dict(g, rattrs={str(i): {rng.choice(['charge', 'mass', 'charge_group']): rng.choice([5.0, 7, 3.5])}
+                                for i in range(g['nres']) if rng.random() < 0.6})
         cases.append((ff, g))
     exprs, outs = [], []
     for ff, g in cases:
@@ -379,6 +384,8 @@ def run(ctx):
         ctx.case(json.dumps([text, g], sort_keys=True), nontrivial=g['nres'] >= 2 and nint >= 1,
                  sample={'ff': text[:400], 'resnames': g['resnames'], 'r0': g['r0'], 'keys': g['keys']})
         ctx.feature('shape_' + g['shape'])
+        if g.get('rattrs'):
+            ctx.feature('residue_nodes_with_attributes_named_like_atom_attributes')
         if 'error' in out:
             ctx.violation('spec', f"the pipeline failed on a generated input: {out['error']}", {'ff': ff, 'graph': g, 'error': out['error']})
             continue
